@@ -51,6 +51,23 @@ def benign(z):
     return np.isfinite(z) and 1e-200 < abs(z) < 1e200
 
 
+COND_MAX = 1e4
+
+
+def well_conditioned(fn, f):
+    """Floating-point results can only be compared where the function is well conditioned: estimate the
+    condition number with respect to the frequency (tan/tanh/coth of arguments ~1e10 lose all digits)."""
+    h = 1e-10
+    try:
+        with np.errstate(all="ignore"):
+            z0, z1, z2 = complex(fn(f)), complex(fn(f * (1 + h))), complex(fn(f * (1 - h)))
+    except Exception:  # noqa
+        return True
+    if not (benign(z0) and benign(z1) and benign(z2)):
+        return True
+    return max(relerr(z0, z1), relerr(z0, z2)) / h <= COND_MAX
+
+
 def run(ctx):
     from pyimpspec import get_elements, Circuit, parse_cdc
     from pyimpspec.circuit.base import Container
@@ -61,6 +78,7 @@ def run(ctx):
                 "a case is non-trivial when its (class, parameter vector, frequency) is distinct")
     ctx.assumptions += [
         "numpy's real-valued ** and sqrt on non-negative floats coincide with the principal complex power (parameters are real and inside their limit box)",
+        "floating-point values are compared only where the kernel is well conditioned in f (estimated condition number <= 1e4; tan/tanh/coth of arguments ~1e10 carry no digits): other points are counted and skipped",
         "IEEE overflow of cosh/sinh at extreme arguments and sympy's own evaluation engine are runtime; points where either side is not finite or exceeds 1e200 are skipped",
     ]
     rnd = ctx.pyrandom(2)
@@ -91,6 +109,9 @@ def run(ctx):
         ctx.note_case((sym, tuple(ps.values()), f))
         if not (benign(z_py) and benign(z_impl)):
             ctx.count("xcheck:skipped-nonfinite")
+            continue
+        if not well_conditioned(lambda x: e._impedance(np.array([x]), **ps)[0], f):
+            ctx.count("xcheck:skipped-ill-conditioned")
             continue
         ctx.count("xcheck:impl-term-vs-python")
         if relerr(z_py, z_impl) > REL:
@@ -165,6 +186,9 @@ def oracle(ctx, rnd, els):
                 ctx.add_failing("to_sympy-fails", {"cdc": e.to_string(17), "f": f}, observed=type(x).__name__, expected="an expression")
                 continue
             ctx.count("oracle:element")
+            if benign(z) and benign(zs) and relerr(z, zs) > 1e-6 and not well_conditioned(lambda x: e._impedance(np.array([x]), **ps)[0], f):
+                ctx.count("oracle:skipped-ill-conditioned")
+                continue
             if benign(z) and benign(zs) and relerr(z, zs) > 1e-6:
                 ctx.add_failing("element-vs-equation", {"cdc": e.to_string(17), "f": f}, observed=str(z), expected=str(zs),
                                 clause="numerically computed impedance equals the documented closed-form equation")
@@ -182,6 +206,9 @@ def oracle(ctx, rnd, els):
             ctx.count("oracle:circuit-skipped:" + type(x).__name__)
             continue
         ctx.count("oracle:circuit")
+        if benign(z) and benign(zs) and relerr(z, zs) > 1e-6 and not well_conditioned(lambda x: c.get_impedances(np.array([x]))[0], f):
+            ctx.count("oracle:skipped-ill-conditioned")
+            continue
         if benign(z) and benign(zs) and relerr(z, zs) > 1e-6:
             ctx.add_failing("circuit-vs-symbolic", {"cdc": c.serialize(17), "f": f}, observed=str(z), expected=str(zs),
                             clause="the symbolic impedance expression of a circuit with values substituted evaluates to the numeric impedance")
